@@ -309,7 +309,7 @@ impl Property for C02 {
             st.count("skipped_incidental_dot_component");
             return Ok(());
         }
-        if case.shape != Shape::Rooted && starts_rooting_expr(&strip_flags(&expr)) {
+        if (case.shape != Shape::Rooted && starts_rooting_expr(&strip_flags(&expr))) || has_sep_class(&expr) {
             // never walk the real file system root
             st.count("skipped_rooted_outside_scratch");
             return Ok(());
